@@ -18,7 +18,8 @@ VERIF = os.path.dirname(os.path.dirname(os.path.abspath(__file__)))
 KNOWN_FILE = os.path.join(VERIF, 'KNOWN_FINDINGS.txt')
 MAX_UNKNOWN = 6          # stop exploring after this many distinct unknown witnesses
 MIN_BUDGET = 300         # check evaluations per minimisation
-MIN_TOTAL = 2500         # ... and per worker process in one run
+MIN_TOTAL_SECONDS = 90.0  # ... seconds of exhaustive minimisation per worker process in one run
+GREEDY_BUDGET = 600      # evaluations of the greedy fallback descent
 MIN_SECONDS = 15.0       # wall time per minimisation
 CHUNK_WITNESS_CAP = 8    # a worker stops a chunk once it holds this many distinct witnesses
 
@@ -104,23 +105,35 @@ def load_known():
 
 # ----------------------------------------------------------------------------- minimisation
 
-_MIN_SPENT = [0]
+_MIN_SPENT = [0.0]        # seconds spent minimising in this worker process
+
+
+def _clauses_of(prop, case, memo, counter):
+    k = case_key(case)
+    if k not in memo:
+        counter[0] += 1
+        try:
+            memo[k] = frozenset(f.clause for f in safe_check(prop, case))
+        except Exception:  # noqa: BLE001  (oracle cannot judge the reduced case)
+            memo[k] = frozenset()
+    return memo[k]
 
 
 def minimise(prop, case, clause, memo, budget=MIN_BUDGET):
-    """All minimal witnesses reachable from `case` through failing one-step reductions
-    (same clause).  memo: key -> frozenset of failing clauses."""
+    """All minimal witnesses reachable from `case` through failing one-step reductions (same
+    clause).  memo: key -> frozenset of failing clauses.  When the budget (evaluations, seconds per
+    case, seconds per worker) runs out, a greedy single-path descent from the original case is used
+    instead, so that a failing case is never reported un-minimised merely because many cases fail."""
     reduce_fn = getattr(prop, 'reduce', None)
     if reduce_fn is None:
         return [case]
+    t0 = time.time()
     out = {}
     stack = [case]
     visited = set()
-    evals = 0
-    t_end = time.time() + MIN_SECONDS
-    while stack:
-        if time.time() > t_end:
-            budget = 0
+    counter = [0]
+    exhausted = _MIN_SPENT[0] > MIN_TOTAL_SECONDS
+    while stack and not exhausted:
         cur = stack.pop()
         k = case_key(cur)
         if k in visited:
@@ -128,22 +141,35 @@ def minimise(prop, case, clause, memo, budget=MIN_BUDGET):
         visited.add(k)
         failing_children = []
         for red in reduce_fn(cur):
-            rk = case_key(red)
-            if rk not in memo:
-                if evals >= budget or _MIN_SPENT[0] >= MIN_TOTAL:
-                    continue
-                evals += 1
-                _MIN_SPENT[0] += 1
-                try:
-                    memo[rk] = frozenset(f.clause for f in safe_check(prop, red))
-                except Exception:  # noqa: BLE001  (oracle cannot judge the reduced case)
-                    memo[rk] = frozenset()
-            if clause in memo[rk]:
+            if counter[0] >= budget or time.time() - t0 > MIN_SECONDS:
+                exhausted = True
+                break
+            if clause in _clauses_of(prop, red, memo, counter):
                 failing_children.append(red)
+        if exhausted:
+            break
         if failing_children:
             stack.extend(failing_children)
         else:
             out[k] = cur
+    if exhausted:
+        out = {}
+        cur = case
+        counter = [0]
+        t1 = time.time()
+        while True:
+            nxt = None
+            for red in reduce_fn(cur):
+                if counter[0] >= GREEDY_BUDGET or time.time() - t1 > MIN_SECONDS:
+                    break
+                if clause in _clauses_of(prop, red, memo, counter):
+                    nxt = red
+                    break
+            if nxt is None:
+                break
+            cur = nxt
+        out[case_key(cur)] = cur
+    _MIN_SPENT[0] += time.time() - t0
     return list(out.values())
 
 
